@@ -32,14 +32,22 @@ func init() {
 	add("context.TODO", func(m *Machine, fr *frame, fn *ssa.Function, a []Value) Value {
 		return Iface{T: m.P.errorStringPtr, V: m.ctxToken("todo")}
 	})
-	add("context.WithTimeout", func(m *Machine, fr *frame, fn *ssa.Function, a []Value) Value {
-		cancel := &HostFunc{Name: "cancel", Fn: func(m *Machine, fr *frame, args []Value) Value { return nil }}
-		return Tuple{Iface{T: m.P.errorStringPtr, V: m.ctxToken("timeout")}, cancel}
-	})
-	add("context.WithCancel", func(m *Machine, fr *frame, fn *ssa.Function, a []Value) Value {
-		cancel := &HostFunc{Name: "cancel", Fn: func(m *Machine, fr *frame, args []Value) Value { return nil }}
-		return Tuple{Iface{T: m.P.errorStringPtr, V: m.ctxToken("cancel")}, cancel}
-	})
+	// a derived context is a token with a "cancelled" flag that its CancelFunc raises (deadlines themselves are far
+	// beyond anything these harnesses wait for; the parent's cancellation is not propagated - no harness cancels one)
+	cancellable := func(name string) handler {
+		return func(m *Machine, fr *frame, fn *ssa.Function, a []Value) Value {
+			tok := m.ctxToken(name).(*Value)
+			cancel := &HostFunc{Name: "cancel", Fn: func(m *Machine, fr *frame, args []Value) Value {
+				m.noteWrite(tok)
+				*tok = Struct{(*tok).(Struct)[0], m.C.True()}
+				return nil
+			}}
+			return Tuple{Iface{T: m.P.errorStringPtr, V: tok}, cancel}
+		}
+	}
+	add("context.WithTimeout", cancellable("timeout"))
+	add("context.WithCancel", cancellable("cancel"))
+	add("context.WithDeadline", cancellable("deadline"))
 	add("net/url.Parse", hURLParse)
 	add("(*net/url.URL).String", hURLString)
 	add("net/http.NewRequestWithContext", hNewRequest)
@@ -56,14 +64,34 @@ func init() {
 	add("io.ReadAll", hReadAll)
 	add("io/ioutil.ReadAll", hReadAll)
 	add("(*net/http.Request).Context", func(m *Machine, fr *frame, fn *ssa.Function, a []Value) Value {
-		return Iface{T: m.P.errorStringPtr, V: m.ctxToken("request")}
+		if rp, ok := a[0].(*Value); ok && rp != nil {
+			reqT := m.P.Pkgs["net/http"].Type("Request").Type()
+			if c, ok := m.getField((*rp).(Struct), reqT, "ctx").(Iface); ok && c.T != nil {
+				return c // the context the request was made with
+			}
+		}
+		return Iface{T: m.P.errorStringPtr, V: m.ctxToken("background")}
 	})
 }
 
 func (m *Machine) ctxToken(name string) Value {
 	p := new(Value)
-	*p = Struct{"context:" + name}
+	*p = Struct{"context:" + name, m.C.False()}
 	return p
+}
+
+// ctxCancelled: has the CancelFunc of this (model) context been called?
+func (m *Machine) ctxCancelled(v Value) T {
+	if i, ok := v.(Iface); ok {
+		if p, ok := i.V.(*Value); ok && p != nil {
+			if st, ok := (*p).(Struct); ok && len(st) == 2 {
+				if s, ok := st[0].(string); ok && strings.HasPrefix(s, "context:") {
+					return st[1].(T)
+				}
+			}
+		}
+	}
+	return m.C.False()
 }
 
 func fieldIndex(t types.Type, name string) int {
